@@ -70,7 +70,7 @@ def gen_history(rng, nclients: int, maxlen: int, with_drops: bool = True):
         elif k == "delmatch":
             ops.append(["delmatch", c, pick(PATTERNS)])
         elif k == "expire":
-            ops.append(["expire", c, pick(KEYS), pick([4, 8, 16, 80])])
+            ops.append(["expire", c, pick(KEYS), pick([0, 4, 8, 16, 80])])      # (0: the server deletes the key, D37)
         elif k == "clear":
             ops.append(["clear", c])
         elif k == "setlock":
